@@ -120,8 +120,8 @@ def gc_build(keep_s=6 * 3600):
 
 def load_known():
     findings, fixed = [], []
-    p = os.path.join(VERIF, 'KNOWN_FINDINGS.txt')
-    if os.path.exists(p):
+    paths = [os.path.join(VERIF, 'KNOWN_FINDINGS.txt')] + sorted(glob.glob(os.path.join(VERIF, 'KNOWN_FINDINGS.d', '*.txt')))
+    for p in [x for x in paths if os.path.exists(x)]:
         for line in open(p):
             line = line.strip()
             if not line or line.startswith('#'):
